@@ -197,9 +197,11 @@ func runScheduleM(s rigSchedule) (snaps [][]byte, panicMsg string, stuck bool, e
 
 func offsetsGrid(full bool) []int {
 	if full {
-		out := make([]int, 0, 701)
+		out := make([]int, 0, 360)
 		for d := 0; d <= 700; d++ {
-			out = append(out, d)
+			if d <= 12 || d%2 == 0 || (d >= 300 && d <= 330) || (d >= 600 && d <= 640) {
+				out = append(out, d) // every offset near the latency boundaries, every second one elsewhere
+			}
 		}
 		return out
 	}
@@ -363,7 +365,7 @@ func rigSchedules(variant string) []rigSchedule {
 	// sweep around the write-back
 	kstep := 20
 	if full {
-		kstep = 4
+		kstep = 8
 	}
 	for _, k := range kinds {
 		for t := 4600; t <= 6600; t += kstep {
@@ -544,7 +546,7 @@ type snapshotter interface{ VerifSnapshot() comp.VerifSnap }
 func cpuTraces(r *Reporter, dir string) {
 	fams := []famRun{famRunOf("MemDep", "small"), famRunOf("Tail", "small")}
 	if tier == "thorough" {
-		fams = []famRun{famRunOf("MemDep", "large"), famRunOf("Tail", "large"), famRunOf("Shadow", "small"), famRunOf("MemWalk", "small"), generalRuns()[2]}
+		fams = []famRun{famRunOf("MemDep", "large"), famRunOf("Tail", "large"), famRunOf("Shadow", "small"), generalRuns()[2]} // MemWalk's long runs made the trace validation exceed 90 minutes
 	} else {
 		fams = append(fams, generalRuns()[2])
 	}
